@@ -168,6 +168,21 @@ def rule_tracker(ctx):
                         "the budget can wrap below zero", fn=cf)
             if owner.endswith("::alloc"):
                 check_alloc_handle(ctx, f, defs, t, captured)
+    # 4b: the amount is count * size_of::<T>()
+    fa = grid.fn(TRACKER + "::alloc")
+    if fa is not None:
+        from ..validation import subject_name
+        da = Defs(fa)
+        amt = None
+        for blk in fa.blocks:
+            for st in blk[0]:
+                if st[0] == "=" and st[2][0] == "agg" and st[2][1][0] == "adt" and st[2][1][1] == HANDLE:
+                    amt = subject_name(fa, da, st[2][2][0], use_names=False)
+        if amt is not None and "count" in str(amt) and "size_of" in str(amt) and "*" in str(amt):
+            ctx.ok(rid, "amount-is-count-times-size", "bytes = %s" % amt, nontrivial=True, fn=fa)
+        else:
+            ctx.bad(rid, "amount-is-count-times-size", "the amount charged by alloc::<T>(count) is not count * size_of::<T>() (found %s): allocations are "
+                    "under- or over-accounted" % amt, fn=fa)
     # 5: drop gives back self.bytes
     f = grid.fn("<jxl_grid::alloc_tracker::AllocHandle as core::ops::drop::Drop>::drop")
     if f is not None:
